@@ -26,6 +26,40 @@ EXN = {'KeyError': 'KeyError', 'ValueError': 'ValueError', 'IndexError': 'IndexE
        'StopIteration': 'StopIteration', 'AttributeError': 'AttributeError'}
 
 
+class Deadline(BaseException):
+    """ring perception did not return in time (BaseException: not swallowed by `except Exception` in library code)"""
+
+
+class deadline:
+    """with deadline(seconds): ...  raises Deadline in the main thread when the block runs longer (SIGALRM based).
+    The slowest ring perception of the unchanged code on any input of this check takes about half a second."""
+
+    def __init__(self, seconds=60):
+        self.seconds = seconds
+
+    def _fire(self, *a):
+        raise Deadline()
+
+    def __enter__(self):
+        import signal
+        import threading
+        self.active = threading.current_thread() is threading.main_thread()
+        if self.active:
+            self.old = signal.signal(signal.SIGALRM, self._fire)
+            signal.setitimer(signal.ITIMER_REAL, self.seconds)
+        return self
+
+    def __exit__(self, *a):
+        if self.active:
+            import signal
+            signal.setitimer(signal.ITIMER_REAL, 0)
+            signal.signal(signal.SIGALRM, self.old)
+        return False
+
+
+SLOW = 60   # seconds after which one ring perception counts as "does not return"
+
+
 # =====================================================================================================
 # pure-Python reference side (never imports the model; used by the search and to classify inputs)
 
@@ -771,7 +805,15 @@ def search_one(ck, m, tag, fam, ref_sizes=None, stats=None):
     if fam:
         GAP_TAGS.add(tag)
     try:
-        sssr = list(m.sssr)
+        with deadline(SLOW):
+            sssr = list(m.sssr)
+    except Deadline:
+        INVALID.add(tag)
+        stats['sssr does not return'] += 1
+        if not fam:
+            report(ck, f'sssr-timeout:{gk}', f'sssr did not return within {SLOW} s (the unchanged code needs < 1 s on every input of this check)', inp,
+                   'no result', 'a ring list', 'wall-clock deadline', replay_py=rp)
+        return None
     except Exception as e:
         INVALID.add(tag)
         if fam:     # outside the claimed domain of the property (recorded heuristic gaps): counted, not reported
@@ -961,7 +1003,8 @@ def edit_search(ck, m0, tag, rng, stats):
 # =====================================================================================================
 
 def input_stream(ck):
-    """yields (tag, molecule, classification adjacency); deterministic for a fixed seed"""
+    """yields (tag, thunk building the molecule or None); deterministic for a fixed seed.  The molecule is built by the consumer
+    (under a deadline: building one runs ring perception)"""
     rng = random.Random(f'{ck.seed}:c06:inputs')
     quick = ck.tier == 'quick'
     # hand-made: every ring-system type, the recorded gap witnesses, special bonds
@@ -974,19 +1017,19 @@ def input_stream(ck):
         'dense-cage-7-12': {1: {2, 3, 4}, 2: {1, 3, 5, 6}, 3: {1, 2, 5, 7}, 4: {1, 5, 6}, 5: {2, 3, 4, 7}, 6: {2, 4, 7}, 7: {3, 5, 6}},
     }
     for nm, adj in named.items():
-        yield nm, mol_from_graph(adj, natural=True)
+        yield nm, lambda: mol_from_graph(adj, natural=True)
     for br in ((1, 2, 2), (2, 2, 2), (2, 2, 3), (2, 3, 3), (3, 3, 3), (3, 4, 5), (3, 5, 5), (4, 6, 7), (1, 4, 4), (2, 4, 6)):
-        yield f'theta{br}', mol_from_graph(theta(*br))
+        yield f'theta{br}', lambda: mol_from_graph(theta(*br))
     # special bonds: a chord, a ring closed only by a special bond, a special bond between two components
     sq = {1: {2, 4}, 2: {1, 3}, 3: {2, 4}, 4: {1, 3}}
-    yield 'square+special-chord', mol_from_graph({1: {2, 4, 3}, 2: {1, 3}, 3: {2, 4, 1}, 4: {1, 3}}, special=[(1, 3)])
-    yield 'chain-closed-by-special', mol_from_graph(sq, special=[(1, 4)])
-    yield 'two-rings-joined-by-special', mol_from_graph({1: {2, 3, 4}, 2: {1, 3}, 3: {1, 2}, 4: {1, 5, 6}, 5: {4, 6}, 6: {4, 5}}, special=[(1, 4)])
-    yield 'all-special-triangle', mol_from_graph({1: {2, 3}, 2: {1, 3}, 3: {1, 2}}, special=[(1, 2), (2, 3), (1, 3)])
+    yield 'square+special-chord', lambda: mol_from_graph({1: {2, 4, 3}, 2: {1, 3}, 3: {2, 4, 1}, 4: {1, 3}}, special=[(1, 3)])
+    yield 'chain-closed-by-special', lambda: mol_from_graph(sq, special=[(1, 4)])
+    yield 'two-rings-joined-by-special', lambda: mol_from_graph({1: {2, 3, 4}, 2: {1, 3}, 3: {1, 2}, 4: {1, 5, 6}, 5: {4, 6}, 6: {4, 5}}, special=[(1, 4)])
+    yield 'all-special-triangle', lambda: mol_from_graph({1: {2, 3}, 2: {1, 3}, 3: {1, 2}}, special=[(1, 2), (2, 3), (1, 3)])
     from chython import MoleculeContainer
-    yield 'empty', MoleculeContainer()
-    yield 'single-atom', mol_from_graph({1: set()})
-    yield 'two-components', mol_from_graph({1: {2, 3}, 2: {1, 3}, 3: {1, 2}, 7: {8}, 8: {7}, 9: set()}, order=[9, 3, 8, 1, 7, 2])
+    yield 'empty', lambda: MoleculeContainer()
+    yield 'single-atom', lambda: mol_from_graph({1: set()})
+    yield 'two-components', lambda: mol_from_graph({1: {2, 3}, 2: {1, 3}, 3: {1, 2}, 7: {8}, 8: {7}, 9: set()}, order=[9, 3, 8, 1, 7, 2])
     # random special decorations of small graphs
     for t in range(40 if quick else 300):
         n = rng.randint(3, 7)
@@ -999,34 +1042,54 @@ def input_stream(ck):
         sp = [e for e in es if rng.random() < 0.3]
         order = list(adj)
         rng.shuffle(order)
-        yield f'special-random-{t}', mol_from_graph(adj, order=order, special=sp)
+        yield f'special-random-{t}', lambda: mol_from_graph(adj, order=order, special=sp)
     # assemblies and macrocycles
     for t in range(120 if quick else 3000):
-        yield f'assembly-{t}', mol_from_graph(assemble(rng))
+        yield f'assembly-{t}', lambda: mol_from_graph(assemble(rng))
     for t in range(25 if quick else 400):
-        yield f'macrocycle-{t}', mol_from_graph(macrocycle(rng))
+        yield f'macrocycle-{t}', lambda: mol_from_graph(macrocycle(rng))
     # corpus
     from chython import smiles
     for smi in corpus.sample(corpus.lipo(), 300 if quick else 4200, ck.seed, 'c06'):
-        try:
-            m = smiles(smi)
-        except Exception:
-            ck.count('corpus: unreadable')
-            continue
-        yield 'lipo:' + smi, m
-    # the repository's ring test set
+        def read(smi=smi):
+            try:
+                return smiles(smi)
+            except Exception:
+                ck.count('corpus: unreadable')
+                return None
+        yield 'lipo:' + smi, read
+    # the repository's ring test set, record by record
+    from chython import SDFRead
+    import warnings
+    path = os.path.join(common.REPO, 'test/cycle.sdf')
     try:
-        from chython import SDFRead
-        import warnings
+        expected = open(path).read().count('$$$$')
+    except OSError:
+        expected = -1
+    got = 0
+    try:
         with warnings.catch_warnings():
             warnings.simplefilter('ignore')
-            with SDFRead(os.path.join(common.REPO, 'test/cycle.sdf')) as f:
-                mols = list(f)
-        for k, m in enumerate(mols):
-            yield f'cycle.sdf#{k}', m
-        ck.count('cycle.sdf records', len(mols))
+            with SDFRead(path) as f:
+                it = iter(f)
+                for k in range(max(expected, 0)):
+                    box = []
+
+                    def read():
+                        try:
+                            box.append(next(it))
+                        except StopIteration:
+                            return None
+                        return box[0]
+                    yield f'cycle.sdf#{k}', read
+                    if not box:
+                        break
+                    got += 1
     except Exception as e:
-        ck.count(f'cycle.sdf unreadable ({type(e).__name__})')
+        ck.count(f'cycle.sdf reader raised {type(e).__name__}')
+    ck.count('cycle.sdf records', got)
+    if got != expected:
+        ck.unchecked('the ring test set test/cycle.sdf is no longer read completely', f'{got} of {expected} records became molecules')
 
 
 def exhaustive_chunk(args):
@@ -1065,7 +1128,11 @@ def exhaustive_chunk(args):
         if nu == 0:
             continue
         try:
-            rs = _sssr(adj, nu)
+            with deadline(SLOW):
+                rs = _sssr(adj, nu)
+        except Deadline:
+            finds.append(('timeout', es, None, None))
+            continue
         except Exception as e:
             if gap_families(adj):
                 out['recorded gap family (outside the claimed domain), exception not reported'] += 1
@@ -1144,7 +1211,15 @@ def run(ck):
             except Exception as e:  # sssr raising is already reported by the search
                 stats[f'not sent to Coq ({type(e).__name__})'] += 1
         for t in range(renumber):
-            r, mp = rebuild(m, rng, spread=bool(t % 2))
+            try:
+                with deadline(SLOW):
+                    r, mp = rebuild(m, rng, spread=bool(t % 2))
+            except Deadline:
+                stats['building a renumbered copy does not return'] += 1
+                if not fam:
+                    report(ck, f'sssr-timeout:renumbered:{tag[:200]}', f'ring perception on a renumbered copy did not return within {SLOW} s', {'tag': tag},
+                           'no result', 'a molecule', 'wall-clock deadline')
+                break
             ck.case(('mol-renumbered', tag, t), nontrivial=nu > 0)
             ck.count('renumbered copies')
             rtag = tag + f' renumbered#{t}'
@@ -1170,7 +1245,13 @@ def run(ck):
             first = sig not in seen_sig
             seen_sig.add(sig)
             # Coq gets every labelled graph up to 4 atoms (quick) / 5 atoms (thorough) and one labelled representative per class of larger ones
-            m = mol_from_graph(adj, natural=(n <= 4))
+            try:
+                with deadline(SLOW):
+                    m = mol_from_graph(adj, natural=(n <= 4))
+            except Deadline:
+                report(ck, f'sssr-timeout:graph{n}:{es}', f'building this graph through add_atom / add_bond did not return within {SLOW} s', {'edges': es},
+                       'no result', 'a molecule', 'wall-clock deadline')
+                continue
             ck.count(f'exhaustive graphs n={n}')
             adjc = plain_adj(m)
             nu = len(es) - n + 1
@@ -1182,7 +1263,13 @@ def run(ck):
                 sent.add(f'graph{n}:{es}')
                 n_coq += 1
                 if first and n >= 4:
-                    r, _ = rebuild(m, rng)
+                    try:
+                        with deadline(SLOW):
+                            r, _ = rebuild(m, rng)
+                    except Deadline:
+                        report(ck, f'sssr-timeout:graph{n}:{es}:renumbered', f'ring perception on a renumbered copy did not return within {SLOW} s',
+                               {'edges': es}, 'no result', 'a molecule', 'wall-clock deadline')
+                        continue
                     ck.case(('exh-renum', n, es), nontrivial=nu > 0)
                     search_one(ck, r, f'graph{n}:{es} renumbered', fam, ref_sizes=sizes, stats=stats)
                     batch.add(*mol_cases(r, f'graph{n}:{es} renumbered', fam, with_ref=False))
@@ -1192,7 +1279,17 @@ def run(ck):
     t0 = time.time()
     # ---- generated / corpus / test-set molecules
     n_lipo = 0
-    for tag, m in input_stream(ck):
+    for tag, thunk in input_stream(ck):
+        try:
+            with deadline(SLOW):
+                m = thunk()
+        except Deadline:
+            stats['building the input does not return'] += 1
+            report(ck, f'sssr-timeout:{tag[:200]}', f'building this input (which runs ring perception) did not return within {SLOW} s', {'tag': tag},
+                   'no result', 'a molecule', 'wall-clock deadline')
+            continue
+        if m is None:
+            continue
         # quick: the Python search sees every input, Coq (verified checker + correspondence) the first 100 corpus molecules
         # and everything else; thorough: everything
         to_coq = True
@@ -1202,7 +1299,13 @@ def run(ck):
         handle(tag, m, to_coq=to_coq, renumber=2 if quick else 3)
         if len(m) <= 60:
             for t in range(2):
-                edit_search(ck, m, tag, erng, stats)
+                try:
+                    with deadline(SLOW):
+                        edit_search(ck, m, tag, erng, stats)
+                except Deadline:
+                    stats['ring views after an edit do not return'] += 1
+                    report(ck, f'sssr-timeout:after-edit:{tag[:200]}', f'the ring views after an edit did not return within {SLOW} s', {'tag': tag},
+                           'no result', 'ring views', 'wall-clock deadline')
     timing['generated / corpus / test-set molecules (python)'] = round(time.time() - t0, 1)
     t0 = time.time()
     # ---- thorough: the exhaustive domain of the property text, in parallel on the adjacency level
